@@ -25,3 +25,92 @@ Theorem C04_cycles :
     cycles fm c l0 hs lf -> forall k, llv fm lf k = ref_from fm (llv fm l0) (concat hs) k.
 Proof. exact cycles_content. Qed.
 Print Assumptions C04_cycles.
+
+(* ---- with child collections (TreeCycles.v): the combined system collection +
+   store, started from ANY well-formed store that reads as r0, closed at any point
+   (an in-flight round that had not begun may complete during Close) and reopened,
+   any number of times; "modulo empty children" is forced by known finding F10b *)
+From Coq Require Import List.
+From Moss Require Import Tree TreeColl TreeRun TreeInv TreeCycles TreeCyclesFacts.
+
+Theorem C04_tree_close_leaves_prefix :
+  forall (fm : bytes -> value -> bytes -> value) (c : cfg) (f : fnode) (r0 : rtree)
+         (ls : list clabel) (cs : cst) (ch : option persist_choice) (cs' : cst),
+    fn_wf f -> fn_reads_mod fm f r0 ->
+    Forall (fun b => tb_good b = true) (cbatches ls) ->
+    crun fm c (cinit_from c f) ls = Some cs ->
+    close_choice_ok cs ch -> cclose fm c cs ch = Some cs' ->
+    exists a s n,
+      a <= s /\ s <= n /\ n <= length (cbatches ls) /\
+      (forall l, t_ll (c_t cs) = Some l ->
+                 fn_reads_mod fm l (rt_run r0 (firstn a (cbatches ls)))) /\
+      fn_reads_mod fm (c_store cs) (rt_run r0 (firstn s (cbatches ls))) /\
+      fn_reads_mod fm (c_store cs') (rt_run r0 (firstn n (cbatches ls))) /\
+      fn_wf (c_store cs').
+Proof. exact tree_close_leaves_prefix. Qed.
+Print Assumptions C04_tree_close_leaves_prefix.
+
+Theorem C04_tree_caught_up_close_is_complete :
+  forall (fm : bytes -> value -> bytes -> value) (c : cfg) (f : fnode) (r0 : rtree)
+         (ls : list clabel) (cs : cst) (ch : option persist_choice) (cs' : cst),
+    fn_wf f -> fn_reads_mod fm f r0 ->
+    Forall (fun b => tb_good b = true) (cbatches ls) ->
+    crun fm c (cinit_from c f) ls = Some cs ->
+    caught_up cs -> cclose fm c cs ch = Some cs' ->
+    fn_reads_mod fm (c_store cs') (rt_run r0 (cbatches ls)) /\ fn_wf (c_store cs').
+Proof. exact tree_caught_up_close_is_complete. Qed.
+Print Assumptions C04_tree_caught_up_close_is_complete.
+
+(* any number of open / run / close cycles: the reopened snapshot reads as the
+   reference of a concatenation of per-cycle prefixes ... *)
+Theorem C04_tree_cycles_prefixes :
+  forall (fm : bytes -> value -> bytes -> value) (c : cfg) (f0 : fnode) (r0 : rtree)
+         (cy : list cycle) (sts : list cst) (ff : fnode),
+    fn_wf f0 -> fn_reads_mod fm f0 r0 -> cycles_good cy ->
+    cycles_run fm c f0 cy = Some (sts, ff) ->
+    Forall2 (fun cs (lc : cycle) => close_choice_ok cs (snd lc)) sts cy ->
+    exists hs,
+      Forall2 is_prefix_of hs cy /\
+      fn_wf ff /\ fn_reads_mod fm ff (rt_run r0 (concat hs)) /\
+      reads_mod fm (reopened_snapshot c ff) (rt_run r0 (concat hs)).
+Proof. exact tree_cycles_prefixes. Qed.
+Print Assumptions C04_tree_cycles_prefixes.
+
+(* ... and of ALL batches of all cycles when persistence had caught up before each close *)
+Theorem C04_tree_cycles_content :
+  forall (fm : bytes -> value -> bytes -> value) (c : cfg) (f0 : fnode) (r0 : rtree)
+         (cy : list cycle) (sts : list cst) (ff : fnode),
+    fn_wf f0 -> fn_reads_mod fm f0 r0 -> cycles_good cy ->
+    cycles_run fm c f0 cy = Some (sts, ff) ->
+    Forall caught_up sts ->
+    fn_wf ff /\ fn_reads_mod fm ff (rt_run r0 (concat (cycle_batches cy))) /\
+    reads_mod fm (reopened_snapshot c ff) (rt_run r0 (concat (cycle_batches cy))).
+Proof. exact tree_cycles_content. Qed.
+Print Assumptions C04_tree_cycles_content.
+
+(* the runner's close and reopen labels ARE these definitions *)
+Theorem C04_runner_close_is_cclose :
+  forall (r : trs) (ch : option persist_choice) (r' : trs),
+    trstep r (THClose ch) = Some r' ->
+    cclose fm0 (tconf r) (cst_of r) ch = Some (cst_of r') /\ tconf r' = tconf r.
+Proof. exact trstep_close_is_cclose. Qed.
+Print Assumptions C04_runner_close_is_cclose.
+Theorem C04_runner_reopen_is_cinit_from :
+  forall (r r' : trs),
+    trstep r THReopen = Some r' ->
+    cst_of r' = cinit_from (tconf r) (tstore r) /\ tconf r' = tconf r.
+Proof. exact trstep_reopen_is_cinit_from. Qed.
+Print Assumptions C04_runner_reopen_is_cinit_from.
+
+(* "exactly, not modulo empty children" is false: known finding F10b *)
+Theorem C04_tree_cycles_exact_refuted :
+  exists sts ff,
+    cycles_good [(cy_lost, None)] /\
+    cycles_run fm_append cy_cfg fnode_empty [(cy_lost, None)] = Some (sts, ff) /\
+    Forall (caught_up) sts /\
+    assoc cy_n (rt_kids (ref_tree (concat (cycle_batches [(cy_lost, None)])))) <> None /\
+    assoc cy_n (ss_kids (reopened_snapshot cy_cfg ff)) = None /\
+    ~ reads_as fm_append (reopened_snapshot cy_cfg ff)
+               (ref_tree (concat (cycle_batches [(cy_lost, None)]))).
+Proof. exact tree_cycles_exact_refuted. Qed.
+Print Assumptions C04_tree_cycles_exact_refuted.
